@@ -423,6 +423,8 @@ theorem cond_applyC12b {γ} (c : Bool) (a b : PyFSC12b γ) (S : SysC12b) :
     (bif c then a else b) S = bif c then a S else b S := by
   cases c <;> rfl
 
+theorem truthy_strC12b (s : Str) : truthy (.str s) = !s.isEmpty := rfl
+
 theorem pyEq_str_strC12b (a b : Str) : pyEq (.str a) (.str b) = .ok (.bool (a == b)) := rfl
 
 /-- the test of the "verify they all exist" loop, on the values the loop runs over -/
